@@ -263,6 +263,9 @@ SRCC_UNITS = [
     # regenerated by harness/gen/codec.py (Gen/codec_gen.v gen_bytes_to_bits = SrcPreludeText.py_BYTES_TO_BITS)
     ("netaddr/strategy/__init__.py", "pysrc_strategy_bits_gen.v", "strategy_", SRCC_REQ,
      [(None, "int_to_bits", {"int_val": "int", "word_size": "int", "num_words": "int", "word_sep": "str"})]),
+    ("netaddr/fbsocket.py", "pysrc_fbsocket_gen.v", "fbsocket_", SRCC_REQ,
+     [(None, f, {"packed_ip": "bytes", "tokens": "list str", "af": "int", "ip_string": "str", "token": "str"}) for f in (
+         "inet_ntoa", "_is_hextet", "_inet_pton_af_inet", "_compact_ipv6_tokens", "inet_ntop", "inet_pton")]),
     ("netaddr/strategy/ipv4.py", "pysrc_ipv4_gen.v", "ipv4_", SRCC_REQ + " Gen.pysrc_gen",
      [(None, f, dict(SRCC_WORDFNS, word_sep="optstr")) for f in (
          "valid_words", "int_to_words", "words_to_int", "valid_bits", "bits_to_int", "int_to_bits", "valid_bin", "int_to_bin",
@@ -2677,13 +2680,16 @@ def srcc_call(self, node, env):
         self.restore(snap)
         self.pre = pre0
         return None
+    if (isinstance(f, ast.Attribute) and f.attr == "encode" and not node.args and not node.keywords and isinstance(f.value, ast.Constant)
+            and isinstance(f.value.value, str) and all(ord(c) < 128 for c in f.value.value)):
+        return ("bytes", "[%s]" % "; ".join("%d" % ord(c) for c in f.value.value))      # '<ASCII literal>'.encode(): its byte values
     if isinstance(f, ast.Attribute) and f.attr in ("join", "split", "encode") and not node.keywords and not (
             isinstance(f.value, ast.Name) and f.value.id not in env and self.tr.srcc_module_const(f.value.id, node) is None):
         ty, t = self.ex(f.value, env)
         if ty != "str":
             bad(node, "%s() on %s" % (f.attr, show(ty)))
         if f.attr == "encode" and not node.args and isinstance(f.value, ast.Constant):
-            return ("bytes", "(py_encode %s)" % t)          # '<ASCII literal>'.encode(): its bytes
+            return ("bytes", "(py_encode %s)" % t)          # '<printable ASCII literal>'.encode(): its bytes
         if f.attr == "join" and len(node.args) == 1:
             aty, a = self.ex(node.args[0], env)
             if not srcc_is_strlist(aty):
@@ -2823,6 +2829,14 @@ def srcc_stmt(self, s, rest, env, k, after):
             cn, env = self.bind_local(s, l, lty, env)
             return self.wrap(pre, ("let", cn, new, go(env)))
     if isinstance(s, ast.If):
+        t, neg = s.test, False
+        if isinstance(t, ast.UnaryOp) and isinstance(t.op, ast.Not):
+            t, neg = t.operand, True
+        if (isinstance(t, ast.Call) and dotted(t.func) == "_is_str" and "_is_str" not in env and len(t.args) == 1 and not t.keywords
+                and isinstance(t.args[0], ast.Name) and env.get(t.args[0].id, ("",))[0] == "bytes"
+                and self.mod.imports.get("_is_str") == "netaddr.compat._is_str" and compat_lambda_isinstance("_is_str")):
+            # _is_str(x) for a packed byte string: compat tests isinstance(x, (str, bytes)) -- true
+            return self.block((s.orelse if neg else s.body) + rest, env, k, after)
         t = s.test
         if (isinstance(t, ast.Compare) and len(t.ops) == 1 and isinstance(t.ops[0], ast.Is) and isinstance(t.left, ast.Name)
                 and isinstance(t.comparators[0], ast.Constant) and t.comparators[0].value is None
@@ -2867,3 +2881,17 @@ def _srcc_return(self, s, env):
 
 
 Fn.return_ = _srcc_return
+
+
+_listexpr0 = Fn.listexpr
+
+
+def _srcc_listexpr(self, node, env):
+    """`for c in s` / a comprehension over text s: its characters as one-character strings"""
+    r = _listexpr0(self, node, env)
+    if srcc_on(self) and r[0] == "str":
+        return (("list", Cell("str")), "(py_list_of_str %s)" % r[1])
+    return r
+
+
+Fn.listexpr = _srcc_listexpr
